@@ -104,6 +104,16 @@ CLAIMS = {
             TB + "; statistical freshness of os.urandom/SigningKey.generate assumed; unpack proved per header shape (<= 3 "
                  "blocks, stated bound)",
             "deductive: AST->VC, ghost call logs, loop contract over an abstract block dictionary, z3; bounded monitor"),
+    "C10": ("proof",
+            "contracts on the real conf_dict_to_list / conf_dict_to_tlv for dictionaries of 0..3 entries with fully symbolic "
+            "keys, value ids and contents of symbolic length 0..254 and every mix of set / delete-value / delete-key: order "
+            "(deletes first, each group sorted, each entry once), no empty block, every block <= 117 bytes whenever each "
+            "entry fits, total-size bounds; decoding equality against the independent decoder spec/tlvcfg.py and larger "
+            "dictionaries (4..40 entries) by the bounded monitor; set_config's framing is proved under C06",
+            "DESIGN.md section 9 C10",
+            TB + "; bounded in the NUMBER of entries at L1 (<= 3), unbounded in sizes; list.sort executed natively (forking "
+                 "comparisons)",
+            "deductive: AST->VC with native symbolic execution of the sort/merge loops (LIA over lengths), z3; bounded monitor"),
 }
 
 NA_DEFAULT = "check not built yet (construction in progress, see DESIGN.md section 14)"
